@@ -242,3 +242,21 @@ def oracle_c14(case, got):
     if cls == 1 and dd > p and ('_' not in s or len(s.split('_')[1]) != dd - p):
         return "guard digits not set off after underscore in %r" % s
     return None
+
+def oracle_c13_cmp(case, got):
+    """Guarded comparison law: equal iff the stored values differ by less than half a unit of the declared
+    precision (10^guard raw units), otherwise ordered as the stored values."""
+    if case['cls'] != 1 or case['op'] not in (13, 14, 15, 16, 17, 18, 19) or case['B'][0] != 'v': return None
+    a, b, g = case['A'][1], case['B'][1], case['g']
+    eq = 2 * abs(a - b) < 10 ** g
+    lt = (not eq) and a < b
+    gt = (not eq) and a > b
+    op = case['op']
+    if op == 19: return "ok %d" % (0 if eq else (1 if gt else -1))
+    r = {13: eq, 14: not eq, 15: lt, 16: lt or eq, 17: gt, 18: gt or eq}[op]
+    return "bool %d" % int(r)
+
+def guard0_twin(case):
+    """the Fixed case corresponding to a Guarded guard=0 case"""
+    c = dict(case); c['cls'] = 0; c['g'] = 0
+    return c
